@@ -359,6 +359,61 @@ func main() {
 		}
 	}
 
+	// ---- network/message.go: is the optional envelope field Code dereferenced without a nil test?
+	envelopeGuarded := true
+	if nf, err := parser.ParseFile(token.NewFileSet(), filepath.Join(repo, "src/network/message.go"), nil, 0); err == nil {
+		for _, d := range nf.Decls {
+			fd, ok := d.(*ast.FuncDecl)
+			if !ok || fd.Body == nil || fd.Name.Name != "unMarshalMessage" {
+				continue
+			}
+			var walkE func(n ast.Node, conds []ast.Expr)
+			walkE = func(n ast.Node, conds []ast.Expr) {
+				if n == nil || reflect.ValueOf(n).IsNil() {
+					return
+				}
+				switch s := n.(type) {
+				case *ast.IfStmt:
+					if s.Init != nil {
+						walkE(s.Init, conds)
+					}
+					walkE(s.Cond, conds)
+					walkE(s.Body, append(append([]ast.Expr{}, conds...), s.Cond))
+					if s.Else != nil {
+						walkE(s.Else, conds)
+					}
+					return
+				case *ast.StarExpr:
+					if sel, ok := s.X.(*ast.SelectorExpr); ok && sel.Sel.Name == "Code" {
+						if base, ok := sel.X.(*ast.Ident); ok {
+							g := false
+							for _, c := range conds {
+								if condImpliesNonNil(c, base.Name, "Code") {
+									g = true
+								}
+							}
+							if !g {
+								envelopeGuarded = false
+							}
+						}
+					}
+				}
+				ast.Inspect(n, func(c ast.Node) bool {
+					if c == n {
+						return true
+					}
+					if c != nil {
+						walkE(c, conds)
+					}
+					return false
+				})
+			}
+			walkE(fd.Body, nil)
+		}
+	} else {
+		fail("parse network/message.go: %v", err)
+	}
+
 	// ---- call sites of the parsers outside package types
 	calleeID := map[string]int{"UnMarshalTransaction": 1, "UnMarshalTransactions": 2, "UnMarshalBlock": 3, "UnMarshalBlockHeader": 4,
 		"UnMarshalGroup": 5, "UnMarshalMember": 6, "PbToBlockHeader": 11, "PbToBlock": 12, "PbToGroup": 13, "PbToGroupHeader": 14,
@@ -615,6 +670,8 @@ structure DerefSite where
 	sb.WriteString("\n]\n\n")
 	sb.WriteString("/-- consensus/net: MessageHandler.Handle defers a recover() around every decoder it calls. -/\n")
 	fmt.Fprintf(&sb, "def consensusHandlerRecovers : Bool := %v\n\n", consensusRecovers)
+	sb.WriteString("/-- network/message.go unMarshalMessage: no unguarded `*message.Code` (an optional field). -/\n")
+	fmt.Fprintf(&sb, "def envelopeCodeGuarded : Bool := %v\n\n", envelopeGuarded)
 	sb.WriteString(`/-- Schema as the protobuf runtime sees it (struct tags of x.pb.go):
     (message id, field number, kind, label) with kind 0 = varint, 2 = length-delimited;
     label 0 = optional, 1 = required, 2 = repeated.
